@@ -411,19 +411,20 @@ func (l *Linter) lintSubRoutineDeclaration(decl *ast.SubroutineDeclaration, ctx 
 		ctx.GotoDestinations = make(map[string]struct{})
 	}()
 
-	l.lint(decl.Block, cc)
-
-	// We are done linting inside the previous scope so
-	// we dont need the return type anymore
-	cc.ReturnType = nil
-
 	// Check ignored UNUSED_DECLARATION rule and mark as used
 	// The subroutine is not registered when its name collides with a builtin function (namespace)
+	// Decided before the block is linted: an ignore range opened inside the body does not cover the declaration itself.
 	if l.ignore.IsEnable(UNUSED_DECLARATION) {
 		if sub, ok := ctx.Subroutines[decl.Name.Value]; ok {
 			sub.IsUsed = true
 		}
 	}
+
+	l.lint(decl.Block, cc)
+
+	// We are done linting inside the previous scope so
+	// we dont need the return type anymore
+	cc.ReturnType = nil
 
 	return types.NeverType
 }
